@@ -130,9 +130,9 @@ def run(p, led, tier):
         return True
 
     for fi, call, recv in sites:
-        if sem_ok and covered(fi):
+        if sem_ok and covered(fi) and (fi.module.rel, call.lineno) in EXECUTED_AT:
             led.ok("C03-R1", f"{fi.qual} ▸ {short(call, 50)}", where(fi, call),
-                   "reached only through the interpreted entry points, whose capability tables hold for every required / allowed set (rows above)")
+                   "the interpreted entry points, whose capability tables hold for every required / allowed set (rows above), are the only way to this site and their runs went through it")
             continue
         cfg = cfg_of(fi, led)
         node = cfg.node_of(call)
@@ -284,6 +284,9 @@ def run(p, led, tier):
 
 
 # ----------------------------------------------------------------------
+EXECUTED_AT = set()      # (file, line) of the call expressions through which a table run reached a tool body
+
+
 def _capability_tables(p, led, mito):
     """metabolize (tool pathway, forced and auto-detected) and execute_tool_call interpreted for every required set ×
     every ceiling over three capabilities (plus each single capability): the tool body runs exactly when the statement
@@ -303,6 +306,7 @@ def _capability_tables(p, led, mito):
     combos = [(r, a) for r in subsets for a in [None] + subsets]
     combos += [(frozenset({m_}), a) for m_ in members[3:] for a in (None, frozenset(), frozenset({m_}), frozenset(base))]
     ok_all = True
+    EXECUTED_AT.clear()
     for label, how in (("metabolize ▸ tool pathway (forced)", "forced"), ("metabolize ▸ tool pathway (auto-detected)", "auto"), ("execute_tool_call", "call")):
         bad, npaths = [], 0
         for req, allowed in combos:
@@ -313,6 +317,7 @@ def _capability_tables(p, led, mito):
                 @stub
                 def body(interp, args, kwargs):
                     ran.append(1)
+                    EXECUTED_AT.update(interp.call_stack[-2:])
                     return "done"
                 m = it.instantiate(mito, [], dict(allowed_capabilities=(None if _allowed is None else {it.enum_member(CAP, c) for c in _allowed}), silent=True))
                 t = it.instantiate(st, [], dict(name="t", description="d", func=body, required_capabilities={it.enum_member(CAP, c) for c in _req}))
@@ -350,6 +355,48 @@ def _capability_tables(p, led, mito):
                      witness="Mitochondria(allowed_capabilities=set()) + tool requiring NET: the tool body runs")
         else:
             led.ok("C03-R1", key, where(fn, fn.node), f"{npaths} path(s): the tool body runs ⇔ no ceiling ∨ required ⊆ allowed; a refusal is a failure result; an admissible tool runs once")
+    # ---- a forbidden tool must not run wherever its call sits in the expression and whichever pathway is forced
+    net = members[2]
+    shapes = ["u(t())", "1 + t()", "0 < t()", "[1, t()]", "t() if 1 else 0", "-t()", "u(x=t())", "t() and 1", "t()"]
+    nbad, npaths2 = [], 0
+    for shape in shapes:
+        for pathway in [None] + [n for n, _ in MP.enum_members()]:
+            def go_n(o, _shape=shape, _pw=pathway):
+                it = Interp(p, o)
+                ran = []
+
+                def mk(label):
+                    @stub
+                    def body(interp, args, kwargs):
+                        ran.append(label)
+                        return 1
+                    return body
+                m = it.instantiate(mito, [], dict(allowed_capabilities=set(), silent=True))
+                t = it.instantiate(st, [], dict(name="t", description="d", func=mk("forbidden"), required_capabilities={it.enum_member(CAP, net)}))
+                u = it.instantiate(st, [], dict(name="u", description="d", func=mk("harmless"), required_capabilities=set()))
+                reg = p.find_method(mito, "engulf_tool")
+                try:
+                    it.call_fi(reg, [m, t], {})
+                    it.call_fi(reg, [m, u], {})
+                    r = it.call_fi(met, [m, _shape] + ([it.enum_member(MP, _pw)] if _pw else []), {})
+                except PyRaise as e:
+                    return dict(raised=repr(e.exc), ran=list(ran))
+                return dict(ran=list(ran), success=r.fields.get("success") if isinstance(r, Obj) else None)
+            try:
+                paths = [r for _, r in explore(go_n, max_paths=200)]
+            except Imprecise as e:
+                led.info(f"nested tool-call shape {shape!r} under pathway {pathway}: not interpreted ({e})")
+                continue
+            npaths2 += len(paths)
+            for r in paths:
+                if "forbidden" in r["ran"]:
+                    nbad.append(f"expression {shape!r}, pathway {pathway or 'auto-detected'}: the tool requiring {net} ran under allowed_capabilities=set()")
+    key = "Mitochondria.metabolize ▸ a forbidden tool does not run wherever its call sits in the expression (9 shapes × every pathway)"
+    if nbad:
+        ok_all = False
+        led.fail("C03-R1", key, where(met, met.node), sorted(set(nbad))[0], path=sorted(set(nbad))[:8], witness="metabolize('1 + wire(100)') with wire requiring NET and allowed_capabilities=set(): wire runs")
+    elif npaths2:
+        led.ok("C03-R1", key, where(met, met.node), f"{npaths2} path(s): the forbidden tool's body never runs (nested in a call, an operator, a comparison, a display, a conditional; forced onto every pathway)")
     # ---- histories: a verdict obtained for one tool / one ceiling must not carry over to another
     def extra_kwargs(fn, known):
         """every optional parameter of the entry point that the statement does not mention is the caller's to choose: symbolic"""
